@@ -36,6 +36,18 @@ def gen_e2e(ctx):
                     g = "get:%s:ok:p01@%s/%s/%s" % (H(b"SECRETPATH03.bin"), setup(mode, rfc), ",".join([R(b"150 go"), "Dsend:g7.8192::c"]), abor)
                     p = "put:STOR:%s:g8.20000:p01@%s/%s/%s" % (H(b"SECRETPATH04.bin"), setup(mode, rfc), ",".join([R(b"150 go"), "Drecv:-:c"]), abor)
                     yield eline(c, [co, g, noop, p, noop, g, get(mode, rfc), "disc:1@" + R(b"221 bye")])
+    # transfers that run to their end but whose data connection cannot be closed properly: the server resets it (or closes it
+    # without answering the TLS close-notify) after reading the upload / sending the download; the call throws - and must
+    # still have released the data socket and, in active mode, the listening socket
+    for ver in (13, 12):
+        for tls in (1, 0):
+            for mode in "pa":
+                for rfc in (0, 1):
+                    c = cfg_str(mode=mode, rfc=rfc, ver=ver, tls=tls, prop="C17", verify="none")
+                    co = connect(tls=bool(tls))
+                    up = "put:STOR:%s:g9.5000@%s/%s" % (H(b"SECRETPATH04.bin"), setup(mode, rfc), ",".join([R(b"150 go"), R(b"226 done"), "Drecv:-:r"]))
+                    yield eline(c, [co, put(mode, rfc), up, "isconn", "disc:0", co, get(mode, rfc), "disc:1@" + R(b"221 bye")])
+                    yield eline(c, [co, get(mode, rfc, payload="g4.3000", end="r"), "isconn", "disc:0", co, put(mode, rfc), "disc:0"])
     for gen, prop in ((C13.gen_e2e, "C13"), (C07.gen_e2e, "C07"), (C11.gen, "C11")):
         for l in gen(dict(ctx, scopes=[])):
             yield l.replace("prop=%s" % prop, "prop=C17")
